@@ -1,6 +1,7 @@
 /- driver ops for the decoder family (C02, C04) -/
 import XV.Driver.Util
 import XV.Model.Decode
+import XV.Model.Operand
 import XV.Spec.Dis
 import XV.Spec.OpTables
 namespace XV.Driver
@@ -58,6 +59,38 @@ def decodeDispatch (op : String) (args : List String) : Option String :=
           let ts := xs.filterMap fun (o, op, a) => (a.bind (Spec.Dis.target d o op)).map fun v => s!"{o}:{v}"
           if ts.isEmpty then "-" else ",".intercalate ts
         | none => "(err IndexError)")
+  | _, _ => none
+
+end XV.Driver
+
+namespace XV.Driver
+open XV XV.Model
+
+def showRes : Model.Operand.Res → String
+  | .entry id => s!"entry:{id}"
+  | .raw n => s!"raw:{n}"
+  | .pair a b => s!"pair({showRes a},{showRes b})"
+  | .cmp s => s!"cmp:{s.toString}"
+  | .indexError => "err:IndexError"
+  | .notTable => "raw-arg"
+
+def operandDispatch (op : String) (args : List String) : Option String :=
+  match op, args with
+  | "x.resolve", [tn, o, a, cs, ns, vs, fs] => do
+      let t ← tableByName tn; let o ← parseNat o; let a ← parseNat a
+      let cs ← parseNats cs; let ns ← parseNats ns; let vs ← parseNats vs; let fs ← parseNats fs
+      pure (showRes (Model.Operand.resolve t o a cs ns vs fs))
+  | "x.resolvecode", [tn, h, cs, ns, vs, fs] => do
+      -- decode with the Model of the decoder, then resolve the last instruction's operand
+      let t ← tableByName tn; let code ← parseHex h
+      let cs ← parseNats cs; let ns ← parseNats ns; let vs ← parseNats vs; let fs ← parseNats fs
+      pure (match Model.Decode.instrs t code with
+        | .ok is => match (is.filter (·.arg.isSome)).getLast? with
+          | some i => (match i.arg with
+            | some a => showRes (Model.Operand.resolve t i.opcode a cs ns vs fs)
+            | none => "no-arg")
+          | none => "empty"
+        | .error _ => "err:IndexError")
   | _, _ => none
 
 end XV.Driver
